@@ -176,7 +176,12 @@ func sealSetup(w *vfWorld) {
 		if in := p.intent.Inject; in != nil {
 			w.probe("inject-attempts")
 			ok := resp.Code == 200
-			should := in.Right && in.CertOK && !ctx.req.NoTLS && w.sealed && !w.cfg.BadPrimary
+			cannotUnseal := w.cfg.BadPrimary || (w.cfg.Ed25519OtherPass && w.cfg.Ed25519CA)
+			should := in.Right && in.CertOK && !ctx.req.NoTLS && w.sealed && !cannotUnseal
+			if ok && w.cfg.Ed25519OtherPass && w.cfg.Ed25519CA {
+				w.violate("C09", "unsealed-by-wrong-pass", "unsealed-by-wrong-pass:second-key", "injection was answered 200 although the passphrase does not open the second (Ed25519) sealed key")
+				return
+			}
 			if ok && w.cfg.BadPrimary {
 				w.violate("C09", "unsealed-with-rejected-key", "unsealed-with-rejected-key", "injection was answered 200 although the decrypted primary key is one the loader rejects")
 				return
@@ -343,6 +348,9 @@ func genSealPlan(r *rand.Rand, tier string) *vfPlan {
 		// the sealed file decrypts, with the right passphrase, to a key the loader rejects: the server must stay sealed
 		p.Cfg.BadPrimary = true
 		p.Cfg.Ed25519CA = false
+	}
+	if !p.Cfg.BadPrimary && p.Cfg.Ed25519CA && chance(r, 0.15) {
+		p.Cfg.Ed25519OtherPass = true // the operator's passphrase opens only one of the two sealed keys: the server must stay sealed
 	}
 	add := func(s vfStep) { p.Steps = append(p.Steps, s) }
 	probe := func(par int) vfStep {
